@@ -68,7 +68,8 @@ pub fn run(ctx: &Ctx) -> Result<()> {
 			let order = check_pairing("map-pairing", &desc, len, |_| true, &res, &mut viol);
 			if order != (0..len).collect::<Vec<_>>() { reordered += 1; }
 			if order == perm { *stats.entry("forced_order_achieved".into()).or_insert(0) += 1; }
-			out.line(&format!("acc {n} {len} {} => 1", order.iter().map(|x| x.to_string()).collect::<Vec<_>>().join(",")));
+			// the model decides acceptance with unary naturals: lines are emitted for streams up to 1500 items
+		if len <= 1500 { out.line(&format!("acc {n} {len} {} => 1", order.iter().map(|x| x.to_string()).collect::<Vec<_>>().join(","))); }
 			*stats.entry("small_perm_runs".into()).or_insert(0) += 1;
 		}
 	}
@@ -82,7 +83,8 @@ pub fn run(ctx: &Ctx) -> Result<()> {
 		let res = rt.block_on(async { TileStream::from_vec(items.clone()).map_blob_parallel(work).collect().await });
 		let order = check_pairing("map-pairing", &desc, len, |_| true, &res, &mut viol);
 		if order != (0..len).collect::<Vec<_>>() { reordered += 1; }
-		out.line(&format!("acc {n} {len} {} => 1", order.iter().map(|x| x.to_string()).collect::<Vec<_>>().join(",")));
+		// the model decides acceptance with unary naturals: lines are emitted for streams up to 1500 items
+		if len <= 1500 { out.line(&format!("acc {n} {len} {} => 1", order.iter().map(|x| x.to_string()).collect::<Vec<_>>().join(","))); }
 
 		let res = rt.block_on(async { TileStream::from_vec(items.clone()).filter_map_blob_parallel(|b| { let (i, _) = parse_blob(&b); let w = work(b); if i % 3 == 1 { None } else { Some(w) } }).collect().await });
 		check_pairing("filter_map-pairing", &format!("filter_map len={len} seed={} run={r}", ctx.seed), len, |i| i % 3 != 1, &res, &mut viol);
